@@ -73,7 +73,51 @@ def determinism(n):
     return 1 if bad else 0
 
 
+REACH = {
+    "C01": ["overlap", "crash_with_inflight", "zero_swap_issued"],
+    "C02": ["wf_unequal_weight_matrix", "overlap"],
+    "C03": ["overlap", "crash_with_inflight", "zero_swap_issued", "completed_before_earlier_job"],
+    "C04": ["overlap", "crash_with_inflight"],
+    "C05": ["restart_load_checked", "overlap"],
+    "C06": ["reissue_checked", "crash_with_inflight"],
+    "C07": ["crash_with_inflight", "engine_stream_cases"],
+    "C08": ["kill_cross_checked", "second_order_states", "restarted"],
+    "C09": ["trial_len_eq_maxlen", "accepted_len_eq_maxlength"],
+    "C12": ["torn_frame_at_poll", "several_frames_in_one_poll", "files_out_of_step", "empty_poll",
+            "inproc_propagate_calls"],
+    "C13": ["cuts_inside_a_frame"],
+    "C14": ["old_path_files_deleted", "overlap"],
+    "C17": ["runner_lifecycles", "fullstack_incarnations", "overlap"],
+}
+REACH_FAULTS = {
+    "C03": ["crash_between_steps", "worker_exception", "stalled_job"],
+    "C08": ["torn_write", "crash_state_restarted"],
+    "C12": ["program_nonzero_exit", "finished_before_first_poll"],
+    "C13": ["partial_write_visible_to_reader"],
+    "C17": ["background_stalled", "crash_between_steps"],
+}
+
+
+def reach():
+    """Every rare condition a check is meant to reach must have been hit in its last evidence file."""
+    bad = 0
+    for prop, names in sorted(REACH.items()):
+        path = os.path.join(VERIF, "evidence", f"{prop}.json")
+        if not os.path.isfile(path):
+            print(f"{prop}: no evidence file")
+            bad += 1
+            continue
+        cov = json.load(open(path))["coverage"]
+        zero = [n for n in names if not cov.get("probes", {}).get(n)]
+        zero += [n for n in REACH_FAULTS.get(prop, []) if not cov.get("faults_fired", {}).get(n)]
+        print(f"{prop}: {'all reach probes hit' if not zero else 'STUCK AT ZERO: ' + str(zero)}")
+        bad += len(zero)
+    return 1 if bad else 0
+
+
 if __name__ == "__main__":
+    if len(sys.argv) >= 2 and sys.argv[1] == "reach":
+        sys.exit(reach())
     if len(sys.argv) >= 2 and sys.argv[1] == "digests":
         digests(sys.argv[2], int(sys.argv[3]), int(sys.argv[4]))
         sys.exit(0)
